@@ -166,7 +166,9 @@ func (x *Exec) invoke(fr *Frame, st *State, cc *ssa.CallCommon, recv Val, args [
 			continue
 		}
 		var rv Val
-		if _, isPtr := im.Underlying().(*types.Pointer); isPtr {
+		if bp, boxed := x.unboxPtr(iv.Val); boxed {
+			rv = bp // a descriptor pointer (pointer to a slice or scalar cell) boxed into the interface
+		} else if _, isPtr := im.Underlying().(*types.Pointer); isPtr {
 			rv = VInt{iv.Val}
 		} else {
 			rv = x.unboxVal(arm, iv.Val, im)
